@@ -48,7 +48,7 @@ type WMetaFile struct {
 type WFile struct {
 	Path    string `json:"path"`
 	Content string `json:"content"`
-	Special string `json:"special,omitempty"` // "" | setuid | setgid | sticky: a regular file with that mode bit
+	Special string `json:"special,omitempty"` // "" | setuid | setgid | sticky: a regular file with that mode bit; exec: an executable file
 }
 
 func specialMode(s string) os.FileMode {
@@ -355,7 +355,7 @@ func Materialise(w World, root string) (*Built, error) {
 		if err := os.WriteFile(p, []byte(f.Content), 0o644); err != nil {
 			return nil, err
 		}
-		if m := specialMode(f.Special); m != 0 {
+		if m := specialMode(f.Special); m != 0 || f.Special == "exec" {
 			if err := os.Chmod(p, 0o755|m); err != nil {
 				return nil, err
 			}
